@@ -1273,6 +1273,43 @@ func c06Sequences(w *core.W, j int) {
 	}
 }
 
+// c06GenerateLargest: the largest ranges $GENERATE takes - 65536 steps, whatever the start and the step -
+// expand to one record per step, first and last iterator value included.
+func c06GenerateLargest(w *core.W, j int) {
+	cases := []struct {
+		rng         string
+		first, last int
+	}{{"0-65535", 0, 65535}, {"1-65536", 1, 65536}, {"0-131071/2", 0, 131070}, {"5-196612/3", 5, 196610}, {"100000-165535", 100000, 165535}, {"7-458758/7", 7, 458752}}
+	c := cases[j%len(cases)]
+	text := "$ORIGIN big.example.\n$GENERATE " + c.rng + " h$ 300 IN A 192.0.2.1\nafter 300 IN A 192.0.2.2\n"
+	wit := map[string]any{"zone_text": text}
+	var owners []string
+	var err error
+	w.Eval(1)
+	if w.Guard("ZoneParser($GENERATE largest range)", wit, func() {
+		zp := dns.NewZoneParser(strings.NewReader(text), "", "zone.db")
+		for rr, ok := zp.Next(); ok; rr, ok = zp.Next() {
+			if len(owners) < 70000 {
+				owners = append(owners, rr.Header().Name)
+			}
+		}
+		err = zp.Err()
+	}) {
+		return
+	}
+	w.Count("generate_largest_ranges", 1)
+	want := 65537 // the generated records and the one after them
+	switch {
+	case err != nil:
+		w.Violation("C06/generate-largest-range", fmt.Sprintf("$GENERATE %s (65536 steps): %v", c.rng, err), wit)
+	case len(owners) != want:
+		w.Violation("C06/generate-largest-range", fmt.Sprintf("$GENERATE %s (65536 steps) gave %d records, want 65536 and the one that follows", c.rng, len(owners)-1), wit)
+	case owners[0] != fmt.Sprintf("h%d.big.example.", c.first) || owners[65535] != fmt.Sprintf("h%d.big.example.", c.last) || owners[65536] != "after.big.example.":
+		w.Violation("C06/generate-largest-range", fmt.Sprintf("$GENERATE %s: first owner %s, 65536th %s, then %s", c.rng, owners[0], owners[65535], owners[65536]), wit)
+	}
+	w.NontrivialStr("generate-largest", c.rng)
+}
+
 func init() {
 	plan, run := sections(
 		section{"matrix", tiered(1, 1), c06Matrix},
@@ -1281,6 +1318,7 @@ func init() {
 		section{"keywords", tiered(1, 1), c06Keywords},
 		section{"keyword-case", tiered(1, 3), c06KeywordCase},
 		section{"zones", tiered(40000, 1500000), c06Zone},
+		section{"generate-largest-ranges", tiered(6, 6), c06GenerateLargest},
 		concurrentSection("C06"),
 	)
 	core.Register(&core.Monitor{
